@@ -918,6 +918,129 @@ func buildSpecs(p *params) []caseSpec {
 		})
 	}
 
+	// ---------------------------------------------------------------- 10b. aliasing: results defined as NEW lists share nothing
+	// A single expression cannot see that a * 1 returns a list backed by a's own array (a * 1 == a).  Each case here is
+	// a program, run as source text in Starlark and in Python: r = op(a); mutate r; mutate every operand; observe all.
+	{
+		type aop struct{ label, star, py string }
+		ops := []aop{
+			{"list * int", "a * 1", ""}, {"list * int", "a * 2", ""}, {"list * int", "1 * a", ""}, {"list * int", "2 * a", ""}, {"list * int", "a * 0", ""},
+			{"list * int", "a * 1 * 1", ""}, {"list * int", "(a * 1)[:]", ""},
+			{"list + list", "a + []", ""}, {"list + list", "[] + a", ""}, {"list + list", "a + a", ""}, {"list + list", "a + b", ""}, {"list + list", "b + a", ""}, {"list + list", "[] + a + []", ""},
+			{"list slice", "a[:]", ""}, {"list slice", "a[0:len(a)]", ""}, {"list slice", "a[::1]", ""}, {"list slice", "a[0:]", ""}, {"list slice", "a[:len(a)]", ""},
+			{"list slice", "a[None:None:None]", ""}, {"list slice", "a[-len(a):]", ""}, {"list slice", "a[::-1]", ""}, {"list slice", "a[1:]", ""}, {"list slice", "a[::2]", ""}, {"list slice", "a[:99]", ""}, {"list slice", "a[:-1]", ""},
+			{"list()", "list(a)", ""}, {"list()", "list(t)", ""}, {"list()", "list(list(a))", ""},
+			{"sorted", "sorted(a)", ""}, {"sorted", "sorted(a, reverse=True)", ""}, {"sorted", "sorted(t)", ""}, {"sorted", "sorted(a, key=lambda x: 0)", ""},
+			{"reversed", "reversed(a)", "list(reversed(a))"}, {"reversed", "reversed(t)", "list(reversed(t))"},
+			{"comprehension", "[x for x in a]", ""}, {"comprehension", "[x for x in a if True]", ""}, {"comprehension", "[x for x in t]", ""},
+			{"enumerate/zip", "enumerate(a)", "list(enumerate(a))"}, {"enumerate/zip", "zip(a)", "list(zip(a))"}, {"enumerate/zip", "zip(a, a)", "list(zip(a, a))"},
+			{"dict views", "d.keys()", "list(d.keys())"}, {"dict views", "d.values()", "list(d.values())"}, {"dict views", "d.items()", "list(d.items())"},
+			{"dict views", "list(d)", ""}, {"dict views", "sorted(d)", ""},
+		}
+		recvs := []val{vList(), vList(vStr("a")), vList(vStr("a"), vStr("b")), vList(vStr("c"), vStr("a"), vStr("b")), vList(vInt(3), vInt(1), vInt(2)), vList(vStr("b"), vStr("a"), vStr("c"), vStr("a"))}
+		if T {
+			for _, e := range allSeqs([]val{vStr("a"), vStr("b")}, 4) {
+				recvs = append(recvs, vList(e...))
+			}
+			long := make([]val, 20)
+			for i := range long {
+				long[i] = vInt(int64((i * 7) % 20))
+			}
+			recvs = append(recvs, vList(long[:8]...), vList(long...))
+		}
+		prog := func(a val, grow bool, o aop, python bool) string {
+			expr, items := o.star, "d.items()"
+			if python {
+				items = "list(d.items())"
+				if o.py != "" {
+					expr = o.py
+				}
+			}
+			g := ""
+			if grow {
+				// a list that was appended to has spare capacity: appends to a sharing result land in the same slot
+				g = "    a.append(\"q\")\n    a.pop()\n"
+			}
+			return "def f():\n    a = " + a.srcString() + "\n" + g +
+				"    t = tuple(a)\n    d = {x: x for x in a}\n    b = [\"p\"]\n" +
+				"    r = " + expr + "\n" +
+				"    if len(r) > 0:\n        r[0] = \"X\"\n    r.append(\"Y\")\n" +
+				"    a.append(\"Z\")\n    if len(a) > 1:\n        a[1] = \"W\"\n    b.append(\"Q\")\n    d[\"Z\"] = \"Z\"\n" +
+				"    return (a, r, t, b, " + items + ")\nres = f()\n"
+		}
+		for _, ch := range chunk(recvs, 4) {
+			ch := ch
+			add("aliasing-programs", func(*rand.Rand) []group {
+				g := group{op: "prog", recv: vNone}
+				for _, a := range ch {
+					for _, grow := range []bool{false, true} {
+						for _, o := range ops {
+							g.argsets = append(g.argsets, []val{vStr(prog(a, grow, o, false)), vStr(prog(a, grow, o, true)), vStr(o.label)})
+						}
+					}
+				}
+				return []group{g}
+			})
+		}
+	}
+
+	// ---------------------------------------------------------------- 10c. sorted/min/max over long lists with many ties
+	// Go's sort falls back to (stable) insertion sort up to 12 elements: stability of sorted(), with and without
+	// reverse=True, is only observable on longer lists whose tied elements are distinguishable.
+	{
+		nlong := pick(32, 600, T)
+		for i := 0; i < nlong; i++ {
+			add("sorted-long-ties", func(r *rand.Rand) []group {
+				n := 13 + r.Intn(48)
+				var it val
+				var keys []val
+				switch r.Intn(4) {
+				case 0: // distinct ints, tied under x % 3 and x // 10
+					perm := r.Perm(n + r.Intn(40))[:n]
+					e := make([]val, n)
+					for i, x := range perm {
+						e[i] = vInt(int64(x))
+					}
+					it, keys = vList(e...), []val{vFunc("mod3"), vFunc("div10"), vFunc("zero"), vNone, vFunc("neg")}
+				case 1: // strings of few distinct lengths, tied under len
+					e := make([]val, n)
+					for i := range e {
+						e[i] = vStr(randString(r, "abc", 1+r.Intn(3)))
+					}
+					it, keys = vList(e...), []val{vFunc("len"), vFunc("last"), vFunc("first"), vFunc("zero"), vNone}
+				case 2: // equal ints and floats are distinguishable ties even without a key
+					e := make([]val, n)
+					for i := range e {
+						k := r.Intn(4)
+						if r.Intn(2) == 0 {
+							e[i] = vInt(int64(k))
+						} else {
+							e[i] = vFloat(fmt.Sprintf("%d.0", k))
+						}
+					}
+					it, keys = vList(e...), []val{vNone, vFunc("neg"), vFunc("zero")}
+				default: // pairs tied on their first (or last) component
+					e := make([]val, n)
+					for i := range e {
+						e[i] = vTuple(vInt(int64(r.Intn(3))), vInt(int64(i)), vInt(int64(r.Intn(2))))
+					}
+					it, keys = vTuple(e...), []val{vFunc("first"), vFunc("last"), vFunc("zero"), vFunc("len")}
+				}
+				gs := group{op: "f:sorted", recv: vNone}
+				gmin := group{op: "f:min", recv: vNone}
+				gmax := group{op: "f:max", recv: vNone}
+				for _, key := range keys {
+					for _, rev := range []val{vNone, vBool(true), vBool(false)} {
+						gs.argsets = append(gs.argsets, []val{it, key, rev})
+					}
+					gmin.argsets = append(gmin.argsets, []val{vTuple(it), key}, []val{vTuple(it.elems...), key})
+					gmax.argsets = append(gmax.argsets, []val{vTuple(it), key}, []val{vTuple(it.elems...), key})
+				}
+				return []group{gs, gmin, gmax}
+			})
+		}
+	}
+
 	// ---------------------------------------------------------------- 11. random receivers up to length 40
 	nrand := pick(240, 9000, T)
 	for i := 0; i < nrand; i++ {
